@@ -1,5 +1,8 @@
 import Rustic.Gen.Constants
+import Rustic.Lemmas.Check
 import Rustic.Lemmas.Chunker
+import Rustic.Model.Check
 import Rustic.Model.Chunker
 import Rustic.Model.Rabin
+import Rustic.Props.C05
 import Rustic.Props.C06
